@@ -98,3 +98,64 @@ def _simulate_rise_observations(connection, parameters, outfile, observations_on
     ensures(forall(0, len(g_rows), lambda i: forall(0, len(g_rows), lambda j:
             dumped(0)[j] - dumped(0)[i] == G_of(g_sy._spline, g_rows[j][1]) - G_of(g_sy._spline, g_rows[i][1]))))
     ensures(seq_mean(dumped(0)) == seq_mean([g_rows[k][0] for k in range(len(g_rows))]))
+
+
+# --------------------------------------------------------------------------- simulate_recession (C18, the command's observation vector)
+
+@contract("spowtd.transmissivity:create_transmissivity_function", args={"parameters": "yaml"}, returns="fn")
+def _create_transmissivity_function(parameters, result):
+    """ASSUMED (constructors and PyYAML are outside the subset; the classes' __call__ are proved under C15 / C16;
+    validated by bounded.simulate_checks): the object returned is a function of the water level with positive values."""
+    may_raise(ValueError)
+    may_raise(KeyError)
+    may_raise(TypeError)
+    ensures(forall_real(lambda z: result(z) > 0))
+
+
+@contract("spowtd.simulate_recession:simulate_recession", db=True,
+          args={"connection": "connection", "parameter_file": "file"},
+          returns="tuple[array[real],array[real],array[real]]",
+          ghost_results={"g_rows": "list[tuple[real,real]]", "g_Q": "fn"})
+def _simulate_recession(connection, parameter_file, result):
+    """C18 at the level of the command: the measured master recession curve (elapsed time in days, level in cm, ascending
+    in level) is returned unchanged together with a simulated curve on exactly those levels (in mm: cm x 10) whose mean
+    is the mean of the measured elapsed times and whose differences are differences of the antiderivative g_Q that
+    compute_recession_curve's contract describes (integrand Sy / (-ET - curvature T), curvature in 1/km = m/km2 x 1e-3,
+    ET = the query's mean over the recession intervals)."""
+    # precondition on the dataset: the site curvature is not negative and some loss mechanism exists (otherwise the
+    # integrand's denominator -ET - curvature T can vanish)
+    requires(uf_real("site_curvature_m_km2") >= 0)
+    requires(uf_real("site_curvature_m_km2") > 0 or uf_real("mean_recession_et_mm_d") > 0)
+    may_raise(ValueError)
+    may_raise(KeyError)
+    may_raise(TypeError)
+    may_raise(AssertionError)
+    ghost(after="cursor.execute('\\n    SELECT CAST(elapsed_time_s AS double precision)", let="g_rows", do=lambda: cursor.fetchall())
+    ensures(len(g_rows) >= 1 and len(result[0]) == len(g_rows) and len(result[1]) == len(g_rows) and len(result[2]) == len(g_rows))
+    ensures(forall(0, len(g_rows), lambda k: result[0][k] == g_rows[k][0] and result[1][k] == g_rows[k][1]))
+    ensures(seq_mean(result[2]) == seq_mean([g_rows[k][0] for k in range(len(g_rows))]))
+    ensures(forall(0, len(g_rows), lambda i: forall(0, len(g_rows), lambda j:
+            result[2][j] - result[2][i] == g_Q(g_rows[j][1] * 10) - g_Q(g_rows[i][1] * 10))))
+
+
+@contract("spowtd.simulate_recession:dump_simulated_recession#observations", db=True,
+          args={"connection": "connection", "parameter_file": "file", "outfile": "file", "observations_only": "bool"},
+          returns="none", ghost_results={"g_rows": "list[tuple[real,real]]", "g_Q": "fn"})
+def _dump_simulated_recession_observations(connection, parameter_file, outfile, observations_only):
+    """`spowtd simulate recession --observations`: the one value written is the simulated curve of simulate_recession
+    in the opposite order -- from the highest measured level to the lowest (the k-th written value belongs to the k-th
+    level from the top)."""
+    requires(observations_only)
+    requires(uf_real("site_curvature_m_km2") >= 0)
+    requires(uf_real("site_curvature_m_km2") > 0 or uf_real("mean_recession_et_mm_d") > 0)
+    may_raise(ValueError)
+    may_raise(KeyError)
+    may_raise(TypeError)
+    may_raise(AssertionError)
+    ghost(after="avg_elapsed_time_d, avg_zeta_cm, elapsed_time_d = simulate_recession(", let="g_sim", do=lambda: elapsed_time_d)
+    ensures(dump_count() == 1 and len(dumped(0)) == len(g_rows) and len(g_rows) >= 1)
+    # it is exactly the curve simulate_recession returned (whose mean is the measured mean), last element first
+    ensures(len(g_sim) == len(g_rows) and forall(0, len(g_rows), lambda k: dumped(0)[k] == g_sim[len(g_rows) - 1 - k]))
+    ensures(seq_mean(g_sim) == seq_mean([g_rows[k][0] for k in range(len(g_rows))]))
+    ensures(forall(0, len(g_rows), lambda i: forall(0, len(g_rows), lambda j:
+            dumped(0)[len(g_rows) - 1 - j] - dumped(0)[len(g_rows) - 1 - i] == g_Q(g_rows[j][1] * 10) - g_Q(g_rows[i][1] * 10))))
